@@ -24,8 +24,8 @@ K_LEDGER = KaniUnit(
 K_CMSG = KaniUnit(
     name="k_cmsg", harness_file="kani/harness_unix.rs", append_to="src/platform/unix/mod.rs",
     harnesses=["cmsg_recv_blocking", "cmsg_recv_nonblocking", "cmsg_recv_timeout", "conv_channel_is_closed"],
-    props=["C10", "C03", "C11"],
-    id_props=[("kani.cmsg.recvmsg_cmsg_cloexec", ["C11"]), ("kani.cmsg.result_mapping", ["C10", "C03"]), ("kani.cmsg.timeout_ready", ["C10", "C03"]),
+    props=["C10", "C03", "C11", "C02"],
+    id_props=[("kani.cmsg.recvmsg_cmsg_cloexec", ["C11"]), ("kani.cmsg.result_mapping", ["C10", "C03"]), ("kani.cmsg.timeout_ready", ["C10", "C03", "C02"]),
               ("kani.conv.", ["C03", "C12"]), ("kani.cmsg.", ["C10"])],
     safety_props=["C10"],
     assumptions=["fcntl(F_SETFL) sets exactly the O_NONBLOCK bit it is given or fails; recvmsg and poll return ANY value (revents too)",
